@@ -188,3 +188,134 @@ Proof.
               (le_n _) HlFp HlFp (conj Q1 Q2) Hokpre (conj HF12 HFpre) eq_refl) as (s' & l' & E).
   rewrite E. cbn [fst snd run_d rev app]. repeat split; reflexivity.
 Qed.
+
+(* ---------------------------------------------------------------- cuts inside the section header block *)
+Definition shb_tail (ro : ropts) (F : nat) : SM unit :=
+  sec <- shb_opts F empty_sec ;;
+  s <- sget ;;
+  s_disc (r_blen s) ;;;
+  smod (fun s => set_section s true sec) ;;;
+  if ro_mixed ro then sret tt else firstInterface ro F F.
+
+Lemma readSectionHeader_unfold ro F :
+  readSectionHeader ro F =
+  (smod (fun s => set_section (set_names (set_ifaces s []) [] 0) false (r_sect s)) ;;; rsh_version ro F F ;;; shb_tail ro F).
+Proof. reflexivity. Qed.
+
+Lemma eof2_shb_tail ro F s : ro_mixed ro = true -> eof2 (shb_tail ro F s).
+Proof. intros Hmix. unfold shb_tail. rewrite Hmix. e2; apply eof2_shb_opts. Qed.
+
+Lemma peek_1013 {A} (f : list Z -> SM A) s l :
+  exec (sbind (fun s0 : rst => Peek2 (fun bs st => match st with
+             | RsOk => Ret (s0, Ok bs) | RsEOF => Ret (s0, Err match bs with [] => 1 | _ :: _ => 2 end)
+             | RsFail => Ret (s0, Err 3) end)) f) s (10 :: 13 :: l) = exec (f [10;13]) s (10 :: 13 :: l).
+Proof.
+  rewrite exec_bind. unfold exec at 1. cbn [run_d].
+  assert (2 <=? zlen (10 :: 13 :: l) = true) as -> by (unfold zlen; cbn [length]; lia). reflexivity.
+Qed.
+
+Definition hdr24 (L : Z) : list Z := [10;13;13;10] ++ le_bytes 4 L ++ [77;60;43;26] ++ shb_fixed.
+Definition st24 (L : Z) : rst :=
+  set_blen (set_section (set_names (set_ifaces (set_block init_rst false BT_SHB (L - 12)) []) [] 0) false empty_sec) (L - 24).
+
+Lemma newReader_split ro F L x : (0 < F)%nat -> 28 <= L < 4294967296 ->
+  exec (newReader ro F) init_rst (hdr24 L ++ x) = exec (shb_tail ro F) (st24 L) x.
+Proof.
+  intros HF HL. unfold hdr24. repeat rewrite <- app_assoc. unfold newReader. cbn [app]. rewrite peek_1013.
+  change ((nthZ [10; 13] 0 =? 31) && (nthZ [10; 13] 1 =? 139)) with false. cbv iota.
+  change (10 :: 13 :: 13 :: 10 :: le_bytes 4 L ++ 77 :: 60 :: 43 :: 26 :: shb_fixed ++ x)
+    with ([10;13;13;10] ++ le_bytes 4 L ++ [77;60;43;26] ++ shb_fixed ++ x).
+  rewrite exec_bind, exec_readBlock_shb by (try reflexivity; lia). cbv iota beta.
+  rewrite exec_bind, exec_sget. cbv iota beta. sim. rewrite Z.eqb_refl. cbn [negb].
+  rewrite readSectionHeader_unfold. rewrite exec_bind, exec_smod. cbv iota beta.
+  destruct F as [|f]; [lia|]. rewrite exec_bind. cbn [rsh_version].
+  rewrite exec_bind, exec_rd_app by reflexivity. cbv iota beta.
+  rewrite exec_bind, exec_sub_blen. cbv iota beta. rewrite exec_bind, exec_sget. cbv iota beta. sim.
+  change (getu false (sl shb_fixed 0 2)) with 1. change (getu false (sl shb_fixed 2 4)) with 0. cbn [Z.eqb Pos.eqb andb].
+  rewrite exec_sret. cbv iota beta. unfold st24. sim. rewrite u32_small by lia.
+  replace (L - 12 - 12) with (L - 24) by lia. reflexivity.
+Qed.
+
+Lemma shb_is_hdr24 sec : sec_ok sec ->
+  let L := zlen (opts_enc (shb_options sec)) + 28 in
+  enc_shb sec = hdr24 L ++ opts_enc (shb_options sec) ++ le_bytes 4 L /\ 28 <= L < 4294967296.
+Proof.
+  intros Hs. destruct (enc_shb_shape sec Hs) as (E & HL). cbv zeta in *. split; [|exact HL].
+  rewrite E. unfold hdr24. repeat rewrite <- app_assoc. reflexivity.
+Qed.
+
+(* NewNgReader on a proper prefix of the section header block: io.EOF for nothing at all, else io.ErrUnexpectedEOF *)
+Lemma trunc_shb ro F sec k : ro_mixed ro = true -> sec_ok sec -> (6 < F)%nat -> (k < length (enc_shb sec))%nat ->
+  exists s' l', exec (newReader ro F) init_rst (firstn k (enc_shb sec)) = ((s', Err (if (k =? 0)%nat then 1 else 2)), l').
+Proof.
+  intros Hmix Hs HF Hk. destruct (shb_is_hdr24 sec Hs) as (E & HL). cbv zeta in *.
+  set (L := zlen (opts_enc (shb_options sec)) + 28) in *.
+  destruct (exec_newReader ro F sec [] Hmix Hs HF) as (sf & Efull & _). rewrite app_nil_r in Efull.
+  rewrite E in *. rewrite newReader_split in Efull by lia.
+  assert (length (hdr24 L) = 24%nat) as H24 by (unfold hdr24; rewrite !app_length, le_bytes_length; reflexivity).
+  destruct (Nat.lt_ge_cases k 24) as [Hlt|Hge].
+  - (* inside the fixed part *)
+    rewrite firstn_app_le by lia. unfold hdr24.
+    destruct k as [|k]; [cbn [firstn Nat.eqb]; eexists; eexists; reflexivity|]. cbn [Nat.eqb].
+    destruct k as [|k]; [cbn [firstn app]; unfold newReader; rewrite exec_bind; unfold exec; cbn [run_d];
+                         change (2 <=? zlen [10]) with false; cbn; eauto|].
+    change ([10; 13; 13; 10] ++ le_bytes 4 L ++ [77; 60; 43; 26] ++ shb_fixed)
+      with (10 :: 13 :: ([13; 10] ++ le_bytes 4 L ++ [77; 60; 43; 26] ++ shb_fixed)).
+    cbn [firstn]. unfold newReader. rewrite peek_1013.
+    change ((nthZ [10; 13] 0 =? 31) && (nthZ [10; 13] 1 =? 139)) with false. cbv iota.
+    set (l := 10 :: 13 :: firstn k ([13; 10] ++ le_bytes 4 L ++ [77; 60; 43; 26] ++ shb_fixed)).
+    assert (zlen l = Z.of_nat (S (S k))) as Hzl.
+    { unfold l, zlen. cbn [length]. rewrite firstn_length. rewrite !app_length, le_bytes_length. cbn [length]. 
+      change (length shb_fixed) with 12%nat. lia. }
+    destruct (Nat.lt_ge_cases (S (S k)) 8) as [H8|H8].
+    + destruct (exec_readBlock_short init_rst l ltac:(lia)) as (s' & Er). rewrite exec_bind, Er. eauto.
+    + (* the first 8 bytes are there *)
+      assert (l = [10;13;13;10] ++ le_bytes 4 L ++ firstn (S (S k) - 8) ([77;60;43;26] ++ shb_fixed)) as Hl.
+      { unfold l. change (10 :: 13 :: firstn k ([13; 10] ++ le_bytes 4 L ++ [77; 60; 43; 26] ++ shb_fixed))
+          with (firstn (S (S k)) (([10;13;13;10] ++ le_bytes 4 L) ++ [77; 60; 43; 26] ++ shb_fixed)).
+        rewrite firstn_app_split by (rewrite app_length, le_bytes_length; cbn [length]; lia).
+        rewrite app_length, le_bytes_length. cbn [length Nat.add]. rewrite <- app_assoc. reflexivity. }
+      rewrite Hl. set (m := (S (S k) - 8)%nat).
+      destruct (Nat.lt_ge_cases m 4) as [H4|H4].
+      * (* the byte order magic is cut *)
+        rewrite firstn_app_le by (cbn [length]; lia).
+        rewrite exec_bind. unfold exec at 1, readBlock. cbn [run_d].
+        rewrite (app_assoc [10;13;13;10]). rewrite zlen_app, zlen_app, zlen_le_bytes. change (zlen [10;13;13;10]) with 4.
+        pose proof (zlen_nonneg (firstn m [77;60;43;26])).
+        assert (8 <=? 4 + Z.of_nat 4 + zlen (firstn m [77;60;43;26]) = true) as -> by lia. cbn [Z.leb Z.compare].
+        replace (Z.to_nat 8) with (length ([10;13;13;10] ++ le_bytes 4 L)) by (rewrite app_length, le_bytes_length; reflexivity).
+        rewrite firstn_app_exact, skipn_app_exact. cbn [r_big init_rst]. unfold getu.
+        rewrite (sl_0 [10;13;13;10]) by reflexivity. change (le_val [10;13;13;10]) with BT_SHB. rewrite Z.eqb_refl.
+        cbn [run_d]. cbn [Z.leb Z.compare].
+        assert (4 <=? zlen (firstn m [77;60;43;26]) = false) as -> by (unfold zlen; rewrite firstn_length; cbn [length]; lia).
+        cbn [run_d snd fst err_of]. eauto.
+      * (* version and section length are cut *)
+        rewrite firstn_app_split by (cbn [length]; lia). cbn [length].
+        rewrite exec_bind, exec_readBlock_shb by (try reflexivity; lia). cbv iota beta.
+        rewrite exec_bind, exec_sget. cbv iota beta. sim. rewrite Z.eqb_refl. cbn [negb].
+        rewrite readSectionHeader_unfold. rewrite exec_bind, exec_smod. cbv iota beta.
+        destruct F as [|f]; [lia|]. rewrite exec_bind. cbn [rsh_version].
+        rewrite exec_bind, exec_rd_short by (unfold zlen; rewrite firstn_length; change (length shb_fixed) with 12%nat; lia).
+        eauto.
+  - (* inside the options or the trailing length *)
+    assert ((k =? 0)%nat = false) as -> by (apply Nat.eqb_neq; lia).
+    rewrite firstn_app_split by lia. rewrite H24. rewrite newReader_split by lia.
+    destruct (trunc_all (shb_tail ro F) (st24 L) _ _ (k - 24)%nat (eof2_shb_tail ro F _ Hmix) Efull) as (s' & Et);
+      [rewrite app_length, H24 in Hk; lia|eauto].
+Qed.
+
+Theorem prefix_file_shb ro sec i0 ops k :
+  ro_mixed ro = true -> sec_ok sec -> ops_ok [] (WAddIf i0 :: ops) -> zlen ops < 4294967290 ->
+  (k < length (enc_shb sec))%nat ->
+  forall F, (6 < F)%nat ->
+  let r := fst (run_d (session ro F) (firstn k (write_file sec i0 ops))) in
+  fst (fst (fst r)) = (if (k =? 0)%nat then 1 else 2) /\ snd (fst (fst r)) = [] /\ snd (fst r) = (if (k =? 0)%nat then 1 else 2).
+Proof.
+  intros Hmix Hsec Hok Hb Hk F HF. cbv zeta.
+  destruct (write_file_shape sec i0 ops Hok Hb) as (Hfile & _). rewrite Hfile.
+  rewrite firstn_app_le by lia.
+  destruct (trunc_shb ro F sec k Hmix Hsec HF Hk) as (s' & l' & E).
+  unfold session. rewrite run_d_bind.
+  change (run_d (newReader ro F init_rst) (firstn k (enc_shb sec))) with (exec (newReader ro F) init_rst (firstn k (enc_shb sec))).
+  rewrite E. cbn [snd fst run_d cls_of]. repeat split; reflexivity.
+Qed.
